@@ -108,7 +108,13 @@ impl MultiPeerBackend for SubSocketBackend {
         }
 
         self.peers
-            .upsert_async(peer_id.clone(), Peer { send_queue })
+            .upsert_async(
+                peer_id.clone(),
+                Peer {
+                    send_queue,
+                    serial: 0,
+                },
+            )
             .await;
         self.round_robin.push(peer_id.clone());
         match &self.fair_queue_inner {
